@@ -16,7 +16,7 @@ from vf.conform import Conf, step as conf_step
 PID = "C04"
 
 # -- function level ----------------------------------------------------------
-PPATHS = ["/", "/a", "/a/b", "/a/b/c", "/c"]
+PPATHS = ["/", "/a", "/a/b", "/a/b/c", "/c", "/ab"]      # "/ab": a sibling whose name extends "/a" textually
 PERMS = [(True, True), (True, False), (False, True), (False, False)]
 ENTRIES = [(p, r, w) for p in PPATHS for r, w in PERMS]
 
@@ -24,7 +24,7 @@ ENTRIES = [(p, r, w) for p in PPATHS for r, w in PERMS]
 def queries(depth):
     out = ["/"]
     for d in range(1, depth + 1):
-        for t in itertools.product("abc", repeat=d):
+        for t in itertools.product(("a", "b", "c", "ab"), repeat=d):
             out.append("/" + "/".join(t))
     return out
 
@@ -85,7 +85,8 @@ def func_items(tier):
 
 
 # -- wire level ----------------------------------------------------------------
-TREE = {"pub": {"f": b"pubf", "sub": {"g": b"pg"}}, "priv": {"f": b"privf", "sub": {"g": b"sg"}}, "top": b"t"}
+TREE = {"pub": {"f": b"pubf", "sub": {"g": b"pg"}}, "priv": {"f": b"privf", "sub": {"g": b"sg"}}, "top": b"t",
+        "public": {"f": b"publicf"}, "pub2": b"p2"}          # names that merely start with an entry's name
 WTABLES = {
     "none": [],
     "root-ro": [("/", True, False)],
@@ -96,7 +97,7 @@ WTABLES = {
     "sibling": [("/pub", False, False)],
 }
 TARGETS = ["/pub", "/pub/f", "/pub/sub", "/pub/sub/g", "/priv", "/priv/f", "/priv/sub", "/priv/sub/g", "/top", "/new",
-           "/pub/new", "/priv/new", "/priv/sub/new", "/"]
+           "/pub/new", "/priv/new", "/priv/sub/new", "/", "/public", "/public/f", "/public/new", "/pub2", "/pubnew"]
 VERBS = ["CWD", "CDUP", "LIST", "MLSD", "MLST", "RETR", "MKD", "RMD", "DELE", "RNFR", "RNTO", "STOR", "APPE"]
 CWDS = ["/", "/pub", "/priv/sub"]
 
@@ -189,7 +190,7 @@ def wire_items(tier):
 def run(tier, seed, t0):
     parts = report.pmap(func_work, func_items(tier)) + report.pmap(wire_case, wire_items(tier))
     part = report.merge_all(parts)
-    bounds = {"function": {"entries": len(ENTRIES), "tables": "all ordered tables of <= 3 entries (with duplicates) = 8421",
+    bounds = {"function": {"entries": len(ENTRIES), "tables": "all ordered tables of <= 3 entries (with duplicates) over 6 paths x 4 flag combinations",
                            "queries": "all paths of depth <= %d over {a,b,c}" % (3 if tier == "quick" else 4)},
               "wire": {"tables": list(WTABLES), "verbs": VERBS, "targets": TARGETS, "cwds": CWDS,
                        "alias_spellings": 8}}
